@@ -318,8 +318,100 @@ func runReadData(s scenario) error {
 	return nil
 }
 
+// ---------------------------------------------------------------------------
+// entry: the type-filtering ReadData variants (unwanted messages are discarded)
+
+func runReadFiltered(s scenario) error {
+	src := tx.NewSrc(ref.EncodeAll(s.Frames), s.Chunks)
+	rw := tx.RW{Reader: src, Writer: tx.NewRec()}
+	want := ws.OpText
+	if s.Entry == "ReadBinary" {
+		want = ws.OpBinary
+	}
+	read := func() ([]byte, error) {
+		switch {
+		case s.Side == ref.SideServer && want == ws.OpText:
+			return wsutil.ReadClientText(rw)
+		case s.Side == ref.SideServer:
+			return wsutil.ReadClientBinary(rw)
+		case want == ws.OpText:
+			return wsutil.ReadServerText(rw)
+		}
+		return wsutil.ReadServerBinary(rw)
+	}
+	valid := s.Frames[:s.Bad]
+	for _, e := range ref.Events(valid) {
+		if e.Kind != "msg" || ws.OpCode(e.Op) != want {
+			continue
+		}
+		p, err := read()
+		if err != nil {
+			return fmt.Errorf("%s in the valid part of the stream: %v", s.Entry, err)
+		}
+		if !bytes.Equal(p, e.Payload) {
+			return fmt.Errorf("%s returned %x, want %v", s.Entry, p, e)
+		}
+	}
+	p, err := read()
+	if e := s.checkErr(err); e != nil {
+		return e
+	}
+	var openPayload []byte
+	os := openStart(valid)
+	if os < len(valid) && ws.OpCode(valid[os].H.Op) == want {
+		for _, f := range valid[os:] {
+			if !ref.IsControl(f.H.Op) {
+				openPayload = append(openPayload, f.Payload...)
+			}
+		}
+	}
+	if !bytes.HasPrefix(openPayload, p) {
+		return fmt.Errorf("%s returned %x together with the error; the valid fragments of the open wanted message carry %x", s.Entry, p, openPayload)
+	}
+	return nil
+}
+
+// entry: wsutil.Reader where every message is discarded (optionally after a partial read)
+
+func runReaderDiscard(s scenario) error {
+	src := tx.NewSrc(ref.EncodeAll(s.Frames), s.Chunks)
+	rd := &wsutil.Reader{Source: src, State: s.state()}
+	valid := s.Frames[:s.Bad]
+	os := openStart(valid)
+	for _, e := range ref.Events(valid[:os]) {
+		if e.Kind == "ctl" && e.Intermediate {
+			continue
+		}
+		if _, err := rd.NextFrame(); err != nil {
+			return fmt.Errorf("NextFrame before %v (valid part of the stream): %v", e, err)
+		}
+		if err := rd.Discard(); err != nil {
+			return fmt.Errorf("Discard of %v (valid part of the stream): %v", e, err)
+		}
+	}
+	if os == len(valid) {
+		_, err := rd.NextFrame()
+		return s.checkErr(err)
+	}
+	if _, err := rd.NextFrame(); err != nil {
+		return fmt.Errorf("NextFrame for the open message: %v", err)
+	}
+	if s.BufSize > 0 && len(valid[os].Payload) > 0 {
+		// partial read inside the first fragment before discarding
+		one := make([]byte, 1)
+		if n, err := rd.Read(one); err != nil || n != 1 || one[0] != valid[os].Payload[0] {
+			return fmt.Errorf("partial read before Discard: n=%d err=%v byte=%x", n, err, one[0])
+		}
+	}
+	return s.checkErr(rd.Discard())
+}
+
 func run(s scenario) error {
 	switch s.Entry {
+	case "ReadText", "ReadBinary":
+		return runReadFiltered(s)
+	case "Reader+Discard":
+		return runReaderDiscard(s)
 	case "Reader":
 		return runReader(s)
 	case "ReadMessage":
@@ -447,12 +539,15 @@ func TestRuleViolation(t *testing.T) {
 	hx.Check(t, 8, func(t *rapid.T) {
 		var s scenario
 		var masked bool
-		s.Entry = rapid.SampledFrom([]string{"Reader", "Reader", "ReadMessage", "ReadData"}).Draw(t, "entry")
+		s.Entry = rapid.SampledFrom([]string{"Reader", "Reader", "Reader+Discard", "ReadMessage", "ReadData", "ReadText", "ReadBinary"}).Draw(t, "entry")
 		s.Side, masked = drawSide(t)
-		if s.Entry == "ReadData" && s.Side == ref.SideNone {
+		if (s.Entry == "ReadData" || s.Entry == "ReadText" || s.Entry == "ReadBinary") && s.Side == ref.SideNone {
 			s.Side, masked = ref.SideServer, true
 		}
 		s.Extended = rapid.IntRange(0, 3).Draw(t, "ext") == 0
+		if s.Entry == "ReadText" || s.Entry == "ReadBinary" {
+			s.Extended = false // these helpers hard-wire the plain side state
+		}
 		prefix := validPrefix(t, masked)
 		_, _, frag := ref.Validate(prefix, s.Side, s.Extended)
 		bad, broken := badFrame(t, ref.EndState{Side: s.Side, Extended: s.Extended, Fragmented: frag}, masked)
@@ -550,7 +645,10 @@ func TestSmallScopeExhaustive(t *testing.T) {
 									}
 									frames := append(append([]ref.Frame(nil), prefix...), ref.Frame{H: h, Payload: markerPayload(ln)},
 										ref.Frame{H: ref.Header{Fin: true, Op: ref.OpText, Masked: masked}, Payload: markerPayload(3)})
-									for _, entry := range []string{"Reader", "ReadMessage", "ReadData"} {
+									for _, entry := range []string{"Reader", "Reader+Discard", "ReadMessage", "ReadData", "ReadText", "ReadBinary"} {
+										if ext && (entry == "ReadText" || entry == "ReadBinary") {
+											continue // these helpers hard-wire the plain side state
+										}
 										s := scenario{Frames: frames, Bad: len(prefix), Broken: broken, Side: side, Extended: ext, Entry: entry, BufSize: 2}
 										if (int(op)+len(seq))%2 == 0 {
 											s.Chunks = []int{1}
@@ -572,5 +670,5 @@ func TestSmallScopeExhaustive(t *testing.T) {
 		}
 	})
 	hx.EvalN(int(n))
-	hx.Part(fmt.Sprintf("every valid prefix of length<=%d over the 24-letter alphabet x every invalid frame of opcode(16) x fin x len{0,126} x rsv{0,1} x masked, x 2 sides x extended{0,1} x 3 entry points", depth), n, true)
+	hx.Part(fmt.Sprintf("every valid prefix of length<=%d over the 24-letter alphabet x every invalid frame of opcode(16) x fin x len{0,126} x rsv{0,1} x masked, x 2 sides x extended{0,1} x 6 entry points", depth), n, true)
 }
